@@ -336,6 +336,7 @@ def run(ctx: common.Ctx):
     from . import c07_redn_descr
     c07_redn_descr.batch_reduction_descriptors(ctx)
     batch_truthful_promise_tags(ctx)
+    batch_force_value_arg(ctx)
     ctx.broken = sorted(set(ctx.broken))[:50]
 
 
@@ -496,3 +497,72 @@ def replay(ctx, path):
     print(open(path).read()[:3000])
     run(ctx)
     return ctx.finish()
+
+
+def batch_force_value_arg(ctx):
+    """`ForceValueArgTag` on a scalar placeholder (a tag on an INPUT, where it is allowed): the kernel takes the scalar
+    by value instead of through a pointer — same argument name and element type, same outputs bit for bit"""
+    import pytato as pt
+    from pytato.tags import ForceValueArgTag
+    from ..refeval import close, evaluate
+    rng = np.random.default_rng(ctx.seed + 7700)
+    jobs, meta = [], []
+    for dt in ("float32", "float64", "int32", "int64", "int8", "uint16"):
+        for xdt in ("float64", "float32", "int32"):
+            sval = np.asarray(rng.integers(0 if dt.startswith("u") else -3, 4) + (0.37 if dt.startswith("float") else 0)).astype(dt)
+            xval = (rng.integers(-4, 5, size=4) + (0.25 if xdt.startswith("float") else 0)).astype(xdt)
+            for tagged in (False, True):
+                s = pt.make_placeholder("s", (), np.dtype(dt))
+                if tagged:
+                    s = s.tagged(ForceValueArgTag())
+                x = pt.make_placeholder("x", (4,), np.dtype(xdt))
+                e = pt.make_dict_of_named_arrays({"a": x * s + s, "b": pt.sum(x) - s * s, "c": pt.where(pt.greater(x, s), x, s)})
+                jobs.append(cexec.Job(tag=f"force-value-arg:{dt}:{xdt}:{tagged}", expr=e, runs=[{"s": sval, "x": xval}],
+                                      prep=_prep_dedup))
+                meta.append((dt, xdt, tagged, e, {"s": sval, "x": xval}))
+    res = cexec.run_jobs(ctx, jobs)
+    cases = dis = unsupported = 0
+    for k in range(0, len(meta), 2):
+        (dt, xdt, _, e0, inp), r0 = meta[k], res[k]
+        (_, _, _, e1, _), r1 = meta[k + 1], res[k + 1]
+        cases += 1
+        desc = {"scalar_dtype": dt, "array_dtype": xdt, "tag": "ForceValueArgTag"}
+        if r0.error and str(r0.stage).startswith("c-") or r1.error and str(r1.stage).startswith("c-"):
+            unsupported += 1
+            # (the executor cannot run it: the generated kernel's interface is still compared below)
+        if (r1.error and not str(r1.stage).startswith("c-")) and not (r0.error and not str(r0.stage).startswith("c-")):
+            dis += 1
+            ctx.violation(f"tags:force-value-arg:codegen-fails-when-tagged:{r1.error_class}",
+                          f"scalar {dt}: {r1.stage} fails with the tag only: {str(r1.error)[:200]}", desc)
+            continue
+        a0, a1 = (r0.arg_info or {}), (r1.arg_info or {})
+        if a0 and a1:
+            if set(a0) != set(a1):
+                dis += 1
+                ctx.violation("tags:force-value-arg:argument-names", f"scalar {dt}: kernel arguments {sorted(a1)} with the tag, "
+                              f"{sorted(a0)} without", desc)
+                continue
+            bad = [n for n in a0 if a0[n][1] != a1[n][1]]
+            if bad or (a1.get("s") and a1["s"][1] != str(np.dtype(dt))):
+                dis += 1
+                ctx.violation("tags:force-value-arg:argument-dtype",
+                              f"scalar {dt}: with the tag the kernel declares {dict((n, a1[n][1]) for n in a1)}, "
+                              f"without {dict((n, a0[n][1]) for n in a0)}", desc)
+                continue
+        if r0.error or r1.error or not r0.outputs or not r1.outputs:
+            continue
+        ref = evaluate(e0, inp)
+        o0, o1 = r0.outputs[0], r1.outputs[0]
+        for nm in ref:
+            if nm not in o0 or nm not in o1:
+                continue
+            if o0[nm].dtype != o1[nm].dtype or o0[nm].shape != o1[nm].shape or not np.array_equal(o0[nm], o1[nm], equal_nan=False):
+                dis += 1
+                ctx.violation("tags:force-value-arg:value-changed", f"scalar {dt}, array {xdt}: output {nm} is "
+                              f"{o1[nm].tolist()} with the tag, {o0[nm].tolist()} without", desc)
+                break
+            if not close(o1[nm], ref[nm], single="32" in dt + xdt):
+                dis += 1
+                ctx.violation("tags:force-value-arg:value-wrong", f"scalar {dt}, array {xdt}: output {nm} differs from NumPy", desc)
+                break
+    ctx.note_batch("force-value-arg-on-scalar-inputs", cases, dis, exhaustive=False, executor_unsupported=unsupported)
